@@ -377,13 +377,18 @@ impl TextSelection {
         match *cursor {
             Cursor::BeginAligned(cursor) => Ok(cursor),
             Cursor::EndAligned(cursor) => {
-                if cursor.abs() as usize > textlen {
+                if cursor > 0 {
+                    Err(StamError::CursorOutOfBounds(
+                        Cursor::EndAligned(cursor),
+                        "TextSelection::beginaligned_cursor(): end aligned cursor must be zero or negative",
+                    ))
+                } else if cursor.unsigned_abs() > textlen {
                     Err(StamError::CursorOutOfBounds(
                         Cursor::EndAligned(cursor),
                         "TextResource::beginaligned_cursor(): end aligned cursor ends up before the beginning",
                     ))
                 } else {
-                    Ok(textlen - cursor.abs() as usize)
+                    Ok(textlen - cursor.unsigned_abs())
                 }
             }
         }
